@@ -592,6 +592,14 @@ class TaskScenario(ScenarioData):
                         while self.currentSlotIdx > lowerLimit and not self.isWorkingTime(self.currentSlotIdx):
                             self.currentSlotIdx -= 1
 
+        # A starting position outside the scheduling horizon (pinned date or dependency
+        # bound beyond the project end, deadline at the project start) cannot be scheduled
+        if self.currentSlotIdx < self.project.dateToIdx(self.project["start"]) or self.currentSlotIdx > self.project.dateToIdx(
+            self.project["end"]
+        ):
+            self.isRunAway = True
+            return False
+
         # For effort tasks with allocations, don't set start yet - it will be set
         # when first resource is booked. For non-effort tasks, find first working slot.
         # Exception: milestones happen at the exact dependency end time (no need for working slot)
